@@ -80,7 +80,16 @@ def run(oc, tier, seed, model_available, escalate):
         if eu.accidental(bytes(data), len(tree)):
             oc.count("excluded: accidental marker/delimiter")
             continue
-        dmg, damaged, hist = es.within_capacity_damage(rng, P, tree, data)
+        try:
+            dmg, damaged, hist = es.within_capacity_damage(rng, P, tree, data)
+        except KeyError as ex:
+            # the entries of the generated ecc file do not carry the paths of the tree: nothing can be repaired from it
+            oc.oracle_cases += 1
+            oc.violations.append({"input": {"params": P.describe(), "tree": {k: v.hex() for k, v in tree.items()}, "ecc": bytes(data).hex()},
+                                  "impl": {"recorded_path_not_in_tree": str(ex)},
+                                  "what": "the generated ecc file records a path (%s) that is not a file of the protected tree: that file cannot be "
+                                          "repaired from it" % ex})
+            continue
         for k_, v in hist.items():
             tot[k_] += v
         if eu.accidental(bytes(data), len(tree)):
@@ -108,10 +117,24 @@ def run(oc, tier, seed, model_available, escalate):
                 if bad:
                     break
         if bad:
-            oc.violations.append({"input": {"params": P.describe(), "tree": {k: v.hex() for k, v in tree.items()},
-                                            "damaged": {k: v.hex() for k, v in dmg.items()},
-                                            "ecc": bytes(data).hex()},
-                                  "impl": {"exit": rc, "stats": st}, "what": bad})
+            v = {"input": {"params": P.describe(), "tree": {k: v.hex() for k, v in tree.items()},
+                           "damaged": {k: v.hex() for k, v in dmg.items()},
+                           "ecc": bytes(data).hex()},
+                 "impl": {"exit": rc, "stats": st}, "what": bad}
+            if P.algo in (1, 2):
+                # known finding F19 (unireedsolomon fails within capacity, also errors-only with decode_fast): the identical scenario - same
+                # damaged files, same ecc file (codecs 1-3 write the same parity) - must then pass unchanged with --ecc_algo 3
+                P3 = eu.Params(**{**P.describe(), "algo": 3})
+                rc3, st3, out3, _ = eu.correct(P3, droot, e2, os.path.join(d, "out3"))
+                ok3 = rc3 == "0"
+                for p_ in sorted(damaged):
+                    prot = len(tree[p_]) if P.tool == "whole" else min(P.size, len(tree[p_]))
+                    o3 = out3.get(p_)
+                    if o3 is None or o3[:prot] != tree[p_][:prot] or o3[prot:] != dmg[p_][prot:]:
+                        ok3 = False
+                if ok3:
+                    v["finding"] = "F19"
+            oc.violations.append(v)
         oc.count("tool:" + P.tool)
         oc.count("algo:%d" % P.algo)
         oc.count("erasures" if P.erasures else "errors only")
@@ -126,7 +149,10 @@ def run(oc, tier, seed, model_available, escalate):
             if eu.generate(P, os.path.join(sub, "g"), e1) == "0":
                 d1 = bytearray(open(e1, "rb").read())
                 if not eu.accidental(bytes(d1), 1):
-                    dm1, _dmgd, _h = es.within_capacity_damage(rng, P, {p: tree[p]}, d1)
+                    try:
+                        dm1, _dmgd, _h = es.within_capacity_damage(rng, P, {p: tree[p]}, d1)
+                    except KeyError:
+                        continue          # recorded path differs from the file's (reported by the oracle above)
                     if not eu.accidental(bytes(d1), 1):
                         res = fx.run_one(P, p, dm1[p], bytes(d1), os.path.join(sub, "run"))
                         if "request" in res and len(res["request"]) < 300000:
